@@ -1,4 +1,5 @@
 import RedisGoModel.Resp.Reply
+import RedisGoModel.Ds.ZTree
 /-! The sequential keyspace model shared by every command family (core Lean only; executable — the driver runs it).
 
     One database is an association list `key ↦ (value, optional deadline)`.  Commands are total functions
@@ -65,7 +66,7 @@ inductive Value
 | list (l : List Bytes)                    -- head first
 | set (s : List Bytes)                     -- duplicate-free; order irrelevant (a Go map)
 | hash (h : List (Bytes × Bytes))          -- fields unique; order irrelevant
-| zset (z : List ZMember)                  -- names unique; order irrelevant at this level (the tree is modelled in Ds/Avl)
+| zset (z : ZT.T)                          -- the AVL tree of memdb/btree.go itself (Ds/ZTree): shape and stored heights are part of the state
 | stream (s : List StreamEntry)            -- oldest first
 deriving DecidableEq
 
